@@ -121,6 +121,29 @@ StmtNestedAt(k, s) ==
     [] k = 5 -> Block(L(<<Text, s>>)) [] k = 6 -> BlockFull(Num, Id, B1, L(<<s>>)) [] k = 7 -> YieldFull(Num, Id, L(<<s>>))
     [] k = 8 -> Try(L(<<s>>)) [] k = 9 -> TryCatch(B1, L(<<s>>)) [] k = 10 -> TryCatchVar(L(<<s>>), B1)
 
+\* ---- stray control actions -------------------------------------------------
+\* {{else}}, {{content}}, {{catch}}..{{end}} inside a list they do not belong to.  The grammar has no such
+\* production: the parser must reject them; were one accepted, Walk would still have to cope with its tree.
+\* (pre = <<"REJECT">> marks "no template")
+StrayElse    == N(A("else"), <<>>)
+StrayContent == N(A("content"), <<>>)
+StrayCatch   == N(A("catch") \o "c" \o A("end"), <<>>)
+StrayCatchV  == N(A("catch e") \o "c" \o A("end"), <<>>)
+Rej(src) == N(src, <<"REJECT">>)
+StrayIn(x) ==
+  { Rej(A("block blk()") \o "p" \o x.src \o "q" \o A("end")), Rej(A("try") \o "p" \o x.src \o "q" \o A("end")),
+    Rej(A("yield blk() content") \o "p" \o x.src \o "q" \o A("end")),
+    Rej(A("if a") \o "p" \o A("else") \o "q" \o x.src \o "r" \o A("end")),
+    Rej(A("range a") \o "p" \o A("else") \o "q" \o x.src \o "r" \o A("end")),
+    Rej(A("block blk()") \o "p" \o A("content") \o "q" \o x.src \o "r" \o A("end")),
+    Rej(A("try") \o "p" \o A("catch") \o "q" \o x.src \o "r" \o A("end")) }
+Strays == (StrayIn(StrayElse) \cup StrayIn(StrayContent) \cup StrayIn(StrayCatch) \cup StrayIn(StrayCatchV)
+          \cup { Rej(A("if a") \o "p" \o StrayContent.src \o "q" \o A("end")), Rej(A("range a") \o "p" \o StrayContent.src \o "q" \o A("end")),
+                 Rej(A("if a") \o "p" \o StrayCatch.src \o "q" \o A("end")), Rej(A("range a") \o "p" \o StrayCatchV.src \o "q" \o A("end")),
+                 Rej("a" \o StrayCatch.src \o "b"), Rej("a" \o StrayCatchV.src \o "b") })
+          \ { Rej(A("try") \o "p" \o StrayCatch.src \o "q" \o A("end")), Rej(A("try") \o "p" \o StrayCatchV.src \o "q" \o A("end")),  \* try..catch..end + "q{{end}}"
+              Rej(A("block blk()") \o "p" \o StrayContent.src \o "q" \o A("end")) }                                                    \* a block's own content
+
 ---------------------------------------------------------------------------
 (* Walk: a depth-first machine over the template's nodes (pre-order). *)
 VARIABLES tmpl, todo, visited
@@ -128,6 +151,7 @@ vars == <<tmpl, todo, visited>>
 Init == /\ \/ \E s \in StmtReps : tmpl = L(<<s>>)
            \/ \E k \in 1..22, e \in ExprReps \cup ExprNested : tmpl = L(<<StmtWithExprAt(k, e)>>)
            \/ \E k \in 1..10, s \in StmtReps : tmpl = L(<<StmtNestedAt(k, s)>>)
+           \/ \E r \in Strays : tmpl = r
         /\ todo = tmpl.pre /\ visited = <<>>
 Visit == todo # <<>> /\ visited' = Append(visited, Head(todo)) /\ todo' = Tail(todo) /\ UNCHANGED tmpl
 Spec == Init /\ [][Visit]_vars
